@@ -47,18 +47,20 @@ def parseTokens : Nat → List String → Option (List Token × List String)
     pure (⟨z, t, m⟩ :: l, rest')
   | _, _ => none
 
-def parseInts : Nat → List String → Option (List Int × List String)
+/-- pillar amounts; `nil` is a nil pointer -/
+def parseInts : Nat → List String → Option (List (Option Int) × List String)
   | 0, rest => some ([], rest)
   | n + 1, a :: rest => do
-    let a ← parseInt a
+    let a ← parseOptInt a
     let (l, rest') ← parseInts n rest
     pure (a :: l, rest')
   | _, _ => none
 
-def parseFusions : Nat → List String → Option (List (Option Int) × List String)
+/-- fusions: `nilentry` = nil `*FusionInfo`, `nil` = entry with a nil `Amount` -/
+def parseFusions : Nat → List String → Option (List (Option (Option Int)) × List String)
   | 0, rest => some ([], rest)
   | n + 1, a :: rest => do
-    let a ← (if a = "nilentry" then some none else (parseInt a).map some)
+    let a ← (if a = "nilentry" then some none else (parseOptInt a).map some)
     let (l, rest') ← parseFusions n rest
     pure (a :: l, rest')
   | _, _ => none
